@@ -15,10 +15,30 @@ pub const WEIGHTS: [f64; 5] = [0.25, 0.5, 1.0, 1.5, 2.0];
 
 pub fn run(tier: Tier) -> i32 {
     let rep = Report::new("C12", tier, "model_checking");
-    rep.set_rule("SCOPE: all corpus windows of 10/20/40/60 consecutive labels at the tier's stride (plus a fixed shuffle of each) x GV weights {0.25,.5,1,1.5,2} (both GV streams set together) x voices V0 (+P1..P3 thorough); trajectories via hook 1; oracle: for every coefficient of each GV stream with >= 100 eligible frames (voiced, label outside the voice's GV-off contexts by the independent glob matcher) |var/(w*gv_mean)-1| <= 0.2 and variance non-decreasing in w; silence-only utterances equal the dense ML solution; low-pass (non-GV) trajectory bit-identical for every weight; distinct = (voice, window, weight); non-trivial = >= 100 eligible frames");
+    rep.set_rule("SCOPE: all corpus windows of 10/20/40/60 consecutive labels at the tier's stride (plus a fixed shuffle of each) x GV weights {0.25,.5,1,1.5,2} (both GV streams set together) x voices V0 (+P1..P3 thorough) and V0 with two other legal GV-off contexts (previous phoneme; relative accent position); trajectories via hook 1; oracle: for every coefficient of each GV stream with >= 100 eligible frames (voiced, label outside the voice's GV-off contexts by the independent glob matcher) |var/(w*gv_mean)-1| <= 0.2 and variance non-decreasing in w; silence-only utterances equal the dense ML solution; low-pass (non-GV) trajectory bit-identical for every weight; distinct = (voice, window, weight); non-trivial = >= 100 eligible frames");
     rep.assume("corpus windows at the stated stride; weights on the 5-point lattice");
     let corpus = labels::corpus();
-    let gv_off: Vec<String> = vec!["*-sil+*".into(), "*-pau+*".into()];
+    // GV-off context variants: the bundled header's own patterns, and two legal variants that look at
+    // something other than the centre phoneme (previous phoneme; relative accent position)
+    let gv_off_variants: Vec<Vec<String>> = vec![
+        vec!["*-sil+*".into(), "*-pau+*".into()],
+        vec!["*-sil+*".into(), "*-pau+*".into(), "*^a-*".into(), "*^i-*".into()],
+        vec!["*-sil+*".into(), "*-pau+*".into(), "*/A:-1+*".into(), "*/A:1+*".into(), "*/A:2+*".into()],
+    ];
+    let variant_engines: Vec<jbonsai::Engine> = gv_off_variants
+        .iter()
+        .map(|pats| {
+            let bytes = crate::gen::cond::v0_bytes();
+            let text = String::from_utf8_lossy(&bytes[..4096]).to_string();
+            let line_start = text.find("GV_OFF_CONTEXT:").expect("GV_OFF_CONTEXT line");
+            let line_end = line_start + text[line_start..].find('\n').unwrap();
+            let mut out = bytes[..line_start].to_vec();
+            out.extend(format!("GV_OFF_CONTEXT:{}", pats.iter().map(|p| format!("\"{}\"", p)).collect::<Vec<_>>().join(",")).as_bytes());
+            out.extend(&bytes[line_end..]);
+            engine_from_bytes(&out).expect("bundled voice with another GV-off context loads")
+        })
+        .collect();
+    let gv_off: Vec<String> = gv_off_variants[0].clone();
     let stride = tier.pick(61usize, 4usize);
     let widths = [10usize, 20, 40, 60];
     let mut wins: Vec<Vec<String>> = Vec::new();
@@ -41,16 +61,22 @@ pub fn run(tier: Tier) -> i32 {
     let worst = Mutex::new(0.0f64);
     let coef_checks = AtomicU64::new(0);
     let nontriv = AtomicU64::new(0);
-    let jobs: Vec<(usize, usize)> = (0..nvoice).flat_map(|k| (0..wins.len()).filter(move |wi| k == 0 || wi % 5 == k).map(move |wi| (k, wi))).collect();
+    let mut jobs: Vec<(usize, usize)> = (0..nvoice).flat_map(|k| (0..wins.len()).filter(move |wi| k == 0 || wi % 5 == k).map(move |wi| (k, wi))).collect();
+    for v in 1..gv_off_variants.len() {
+        for wi in (0..wins.len()).filter(|wi| tier == Tier::Thorough && wi % 3 == v || wi % 7 == v) {
+            jobs.push((100 + v, wi));
+        }
+    }
     par_for(jobs.len(), 1, |j| {
         let (k, wi) = jobs[j];
-        let base = engine_pk(&[k]);
+        let base = if k >= 100 { variant_engines[k - 100].clone() } else { engine_pk(&[k]) };
+        let gv_off: &Vec<String> = if k >= 100 { &gv_off_variants[k - 100] } else { &gv_off_variants[0] };
         let u = &wins[wi];
         let labs: Vec<jlabel::Label> = u.iter().map(|l| labels::parse(l)).collect();
         let models = Models::new(&labs, &base.voices, base.condition.get_interporation_weight());
         let d = DurationEstimator::new(models.duration(), 5).create(1.0);
         // label eligibility by the independent glob matcher
-        let lab_ok: Vec<bool> = u.iter().map(|l| !any_glob(&gv_off, l)).collect();
+        let lab_ok: Vec<bool> = u.iter().map(|l| !any_glob(gv_off, l)).collect();
         let mut frame_ok = Vec::new();
         for (s, n) in d.iter().enumerate() {
             for _ in 0..*n {
@@ -66,7 +92,7 @@ pub fn run(tier: Tier) -> i32 {
             e.condition.set_gv_weight(1, w);
             rep.eval(1);
             rep.distinct(fnv(format!("{}|{}|{}", k, wi, w).as_bytes()));
-            let rp = json!({"voice": if k == 0 { "V0".to_string() } else { format!("P{}(V0)", k) }, "labels": u, "gv_weight": w});
+            let rp = json!({"voice": if k == 0 { "V0".to_string() } else if k >= 100 { format!("V0 with GV_OFF_CONTEXT {:?}", gv_off) } else { format!("P{}(V0)", k) }, "labels": u, "gv_weight": w});
             let t = match trajectories(&e, u) {
                 Ok(t) => t,
                 Err(er) => {
